@@ -157,7 +157,7 @@ PROPS["C02"] = dict(
     props_file="theories/Props/C02.v",
     props_module="Props.C02",
     harness=[dict(sub="c02", profile="debug"), dict(sub="c02", profile="release"),
-             dict(sub="c01", profile="debug", extra=["--overlap"])],
+             dict(sub="c01", profile="debug", extra=["--overlap"], result_kind="region")],
     rule="every y-monotone lattice polygon with up to 4 (quick) / 6 (thorough) middle vertices (all left/right interleavings x "
          "x offsets 1..3) through both tessellators; random taller/narrower scalings (sides_are_close path), equal-y rows, "
          "longer chains; arbitrary non-monotone side sequences; non-trivial = at least 4 vertices",
@@ -390,6 +390,7 @@ PROPS["C13"] = dict(
 
 PROPS["C01"] = dict(
     level="translation_validation",
+    result_kind="region",
     level_text="Validation with a PROVED validator. The specification (Checker/Region.v, ~40 lines: signed crossing number, "
                "fill rule, covers, far) is exact over the rationals. The decision procedure check_line is proved sound "
                "(Props/C01.v, C01_line_sound): if it accepts a horizontal line, then for EVERY point of that line farther "
@@ -418,4 +419,32 @@ PROPS["C01"] = dict(
     exhaustive_note="polygons with 3 and 4 vertices on the stated lattice (direct check on all; verified checker on a rotating subset in the quick tier)",
     trusted_base=["Checker/Region.v specification; Model/Winding.v wn (anchored by C18's theorems); recording geometry builder"],
     assumptions=["points within the tolerance of an outline edge are not judged", "a call that returns Err is not judged (none observed)"],
+)
+
+PROPS["C03"] = dict(
+    level="translation_validation",
+    result_kind="region",
+    level_text="Validation with the PROVED region comparator of C01 (Props/C01.v: C01_line_sound, C01_witness_sound) and an "
+               "independent f64 check. Curved paths (quadratics, cubics, two sub-paths sharing a curved edge in opposite "
+               "directions) and the built-in shapes (circle, ellipse, rectangle; path-level add_circle / add_ellipse / "
+               "add_rounded_rectangle / add_rectangle) are filled through every entry point, both fill rules, tolerances "
+               "1 .. 0.02. The reference outline is NOT lyon's flattening: every curve is sampled uniformly (200 points; "
+               "12 for the Coq-evaluated subset, band widened by the proved chord-deviation bound of the sampling - C10's "
+               "second-derivative bound), circles / ellipses by 2880-gons. A point farther than tolerance (+1/64 +sampling "
+               "error) from the exact boundary must be covered iff it is inside; overlaps between triangles are rejected "
+               "(crack / overlap along a shared curved edge).",
+    level_note="Passing from the sampled polygon to the true curve relies on the chord-deviation bound and on homotopy "
+               "invariance of the winding number (not machine-checked): hence the 1/64 widening. Violations inherited from "
+               "flattening (K2, K6, K10) are known findings.",
+    technique="Coq-verified region comparator + independent sampling against an exact (non-lyon) reference outline",
+    coq_targets=["theories/Props/C01.vo", "theories/Run/C01.vo"],
+    props_file="theories/Props/C01.v",
+    props_module="Props.C01",
+    harness=[dict(sub="c03", profile="debug")],
+    rule="random curved paths (1..2 closed sub-paths of up to 4 line / quadratic / cubic segments on a 14x14 lattice), every "
+         "fourth case two sub-paths sharing a cubic edge in opposite directions; shapes: circles (radius 0.5..100 and 425), "
+         "ellipses (radii 1..40, rotations), rectangles; tolerances {1, 0.25, 0.139, 0.1, 0.02}; fill rule and entry point "
+         "rotating; ~850 sample points per case; every sixth non-degenerate curved case through the Coq checker",
+    trusted_base=["same as C01; reference outlines are computed by the harness (uniform sampling in f32/f64)"],
+    assumptions=["points within tolerance (+ sampling error) of the exact boundary are not judged"],
 )
